@@ -652,6 +652,7 @@ class RealRegistry:
       self.locks.append((mod, gname, getattr(mod, gname)))
       setattr(mod, gname, R.LockProxy(d, mname, getattr(mod, gname, None)))
     self.results, self.errors = {}, {}
+    R.auto_proxy(d, sc, {"signals": reg})
     self.bodies = {t: self.body(t, kind, arg) for t, (kind, arg) in enumerate(sc.info["ops"])}
 
   def body(self, t, kind, arg):
